@@ -66,6 +66,27 @@ def _relation(ctx, curve, sig, d, k, what):
   return kk
 
 
+def _digest(ctx, rng, hl):
+  """Digest classes: random, all-zero, all-one, and - for the truncation rule
+  of over-long digests - leading zero bytes/bits followed by random bits."""
+  c = rng.choice(['random', 'random', 'zero', 'ones', 'leading-zeros',
+                  'leading-zeros', 'small'])
+  if hl == 0:
+    return b''
+  if c == 'zero':
+    return b'\x00' * hl
+  if c == 'ones':
+    return b'\xff' * hl
+  if c == 'leading-zeros':
+    z = rng.randint(1, hl * 8 - 1)          # number of leading zero bits
+    v = rng.bits(hl * 8 - z) | (1 << (hl * 8 - z - 1))
+    ctx.count('digest_with_leading_zero_bits')
+    return v.to_bytes(hl, 'big')
+  if c == 'small':
+    return rng.choice([1, 2, 255, 256, 65537]).to_bytes(max(hl, 3), 'big')[-hl:]
+  return rng.bytes(hl)
+
+
 def run_model(ctx, spec):
   rng = ctx.rng('model')
   curve = spec['curve']
@@ -84,7 +105,7 @@ def run_model(ctx, spec):
   for i, (d, k, hl) in enumerate(cases):
     if not ctx.want('m%d' % i):
       continue
-    h = rng.choice([rng.bytes(hl), b'\x00' * hl, b'\xff' * hl])
+    h = _digest(ctx, rng, hl)
     if d not in pubs:
       pubs[d] = sigs.mulg(curve, d)
     sig = sigs.sign_k(curve, d, pubs[d], k, h, pad=rng.choice([0, 0, 1, 3]))
@@ -112,7 +133,7 @@ def run_cross(ctx, spec):
   for i in range(spec['n']):
     if not ctx.want('x%d' % i):
       continue
-    h = rng.bytes(rng.choice([20, 32, 48, 64, 66, 72]))
+    h = _digest(ctx, rng, rng.choice([20, 32, 48, 64, 66, 72]))
     curves = rng.sample(gen.NAMED, rng.randint(2, 5))
     batch = []
     for curve in curves:
@@ -277,7 +298,7 @@ def run_ossl(ctx, spec):
     key = cec.derive_private_key(d, cls())
     pn = key.public_key().public_numbers()
     hl = rng.choice(sorted(hcls))
-    digest = rng.choice([rng.bytes(hl), b'\x00' * hl, b'\xff' * hl])
+    digest = _digest(ctx, rng, hl)
     det = i % 2 == 0
     try:
       der = key.sign(digest, cec.ECDSA(cutils.Prehashed(hcls[hl]()),
@@ -394,7 +415,7 @@ def _run(ctx, spec):
 
 def finalize(agg, tier):
   c = agg['counters']
-  need = ['hashlen_vs_order:longer', 'hashlen_vs_order:equal',
+  need = ['digest_with_leading_zero_bits', 'hashlen_vs_order:longer', 'hashlen_vs_order:equal',
           'hashlen_vs_order:shorter', 'openssl_signatures',
           'same_digest_on_several_curves', 'contract:lattice-input-pairs',
           'rfc6979_nonces_compared']
